@@ -110,6 +110,27 @@ def run_scenario(item):
     return out
 
 
+
+def _batch_needs_more_than_cache(it):
+    """Does one batch of the history refer to more distinct statements (the ones it parses and the ones its Bind/Close
+    name, as the client's names stood at that point) than the statement cache holds?  pgcat evicts - and closes on the
+    server - as it reads the batch, before any of it is sent (the recorded finding cache_lt_batch)."""
+    names = {}
+    for b in it['steps']:
+        mine = names.setdefault(b['c'], {})
+        refs = set()
+        for x in b['items']:
+            if x['k'] == 'P':
+                mine[x['n']] = x.get('q')
+                refs.add(x.get('q'))
+            elif x['n'] in mine:
+                refs.add(mine[x['n']])
+                if x['k'] == 'C':
+                    del mine[x['n']]
+        if len(refs) > it['cache']:
+            return True
+    return False
+
 def check_c08(prop, tier, seed):
     v = core.Verdict(prop, tier, seed)
     rng = random.Random(seed)
@@ -188,7 +209,7 @@ def check_c08(prop, tier, seed):
         d = vi['detail']
         it = byid[vi['sc']]
         items_ = d.get('items', [])
-        if any(len({x['n'] for x in b['items']}) > it['cache'] for b in it['steps']):
+        if any(len({x['n'] for x in b['items']}) > it['cache'] for b in it['steps']) or _batch_needs_more_than_cache(it):
             shape = 'cache_lt_batch'      # more distinct named statements in one batch than the cache holds
         elif any(b['c'] == d.get('client') and any(x['k'] == 'P' and x.get('q') == 'bad' and any(y['k'] == 'C' for y in b['items'][i + 1:])
                                                      for i, x in enumerate(b['items'])) for b in it['steps']):
